@@ -177,8 +177,8 @@ fn steps(ctx: &mut Ctx) {
                         "",
                     );
                 }
-                if cpu_us > 1_000_000 {
-                    ctx.rec.violation("C15", &format!("{}|{}|time", name, cls), &format!("one step burned {:.2} s CPU on a tiny state ; operand {} ; state {}", cpu_us as f64 / 1e6, shown, pre.summary()), "");
+                if cpu_us > 100_000 {
+                    ctx.rec.violation("C15", &format!("{}|{}|time", name, cls), &format!("one step burned {:.2} s CPU on a tiny state (normal cost: microseconds) ; operand {} ; state {}", cpu_us as f64 / 1e6, shown, pre.summary()), "");
                 }
                 drop(st);
                 if case % 700 == 0 {
